@@ -206,6 +206,9 @@ def c04(chk):
     else:
         ctx_model(chk, "small", {"history", "panic"}, workers=16)
         ctx_model(chk, "names2", {"history", "panic"}, workers=16, timeout=3000)
+    chk.add_traces("trace_macros", "macros", 1, 1, "trace_macros",
+                   note="the context_map! and math_consts_context! macros (six invocations: every value kind, functions, repeated keys, "
+                        "a type conflict in the middle, the empty map): every entry is applied in order, the first error is returned")
     traces(chk, "histories", "trace_histories", quick=(4, 1500), thorough=(16, 8000),
            note="random histories of 200 operations over 12 names and two slots with full-range values; the abstract contexts "
                 "are carried along by Trace_Api.tla and every recorded projection must equal them")
